@@ -86,6 +86,23 @@ theorem crash_cut_open (max : Nat) {h : Handle} {d : Disk} {items : List Bytes} 
         Good d2 (items ++ [x])) :=
   crash_cut_open_aux x g hk il fl hc.1 hc.2.1 hc.2.2
 
+/-- which items survive a cut completely: index entry inside the first `il` bytes and data either in
+    an older (intact) file or inside the first `cutLen fl` bytes of the head file -/
+def Survives (h : Handle) (d : Disk) (il : Nat) (fl : Option Nat) (i : Nat) : Prop :=
+  ∃ e, d.idx[i + 1]? = some e ∧ INDEX_ENTRY_SIZE * (i + 2) ≤ il ∧ (e.fid < h.headId ∨ e.off ≤ cutLen fl)
+
+/-- **Crash safety for any cut** (this is the property's quantifier: index file and head data file
+    independently at *any* byte lengths — e.g. anywhere between the last sync and the final sizes
+    of a whole batch of appends — older data files intact): re-opening succeeds and yields a
+    prefix of the items that contains every item that survived completely. -/
+theorem crash_any_cut {h : Handle} {d : Disk} {items : List Bytes}
+    (g : Good d items) (hk : HandleOk h d) (il : Nat) (fl : Option Nat) (hil : INDEX_ENTRY_SIZE ≤ il) :
+    ∃ h2 d2 n, «open» (applyCut d il h.headId fl) = some (h2, d2) ∧ HandleOk h2 d2 ∧
+      n ≤ items.length ∧ Good d2 (items.take n) ∧
+      (∀ i, i < items.length → Survives h d il fl i → i < n) := by
+  obtain ⟨h2, d2, n, ho, hh, hn, hg, hs⟩ := crash_any_cut_aux g hk il fl hil
+  exact ⟨h2, d2, n, ho, hh, hn, hg, fun i hi ⟨e, he1, he2, he3⟩ => hs i e hi he1 he2 he3⟩
+
 /-! ## every history -/
 
 inductive Op where
@@ -94,6 +111,8 @@ inductive Op where
   | reopen
   /-- an append cut short by a crash (index left at `il` bytes, data file at `fl`), then re-open -/
   | crashAppend (x : Bytes) (il : Nat) (fl : Option Nat)
+  /-- a crash that leaves the index at `il` bytes and the head data file at `fl`, then re-open -/
+  | crash (il : Nat) (fl : Option Nat)
 
 structure Sys where
   h : Handle
@@ -108,6 +127,10 @@ def step (max : Nat) (s : Sys) : Op → Option Sys
     if CutOk max s.h s.d x il fl then
       («open» (applyCut (append max s.h s.d x).2 il (append max s.h s.d x).1.headId fl)).map
         fun r => ⟨r.1, r.2⟩
+    else some s
+  | .crash il fl =>
+    if INDEX_ENTRY_SIZE ≤ il then
+      («open» (applyCut s.d il s.h.headId fl)).map fun r => ⟨r.1, r.2⟩
     else some s
 
 def run (max : Nat) : Sys → List Op → Option Sys
@@ -124,6 +147,11 @@ def SpecStep (max : Nat) (s : Sys) (items : List Bytes) : Op → List Bytes → 
       (items' = items ∨ items' = items ++ [x]) ∧
       ((append max s.h s.d x).2.idxSize ≤ il →
         (∃ m, fl = some m ∧ (append max s.h s.d x).1.headBytes ≤ m) → items' = items ++ [x])
+    else items' = items
+  | .crash il fl, items' =>
+    if INDEX_ENTRY_SIZE ≤ il then
+      ∃ n, n ≤ items.length ∧ items' = items.take n ∧
+        (∀ i, i < items.length → Survives s.h s.d il fl i → i < n)
     else items' = items
 
 def Inv (s : Sys) (items : List Bytes) : Prop := Good s.d items ∧ HandleOk s.h s.d
@@ -155,6 +183,13 @@ theorem step_inv (max : Nat) (s : Sys) (items : List Bytes) (op : Op) (hi : Inv 
         · exact ⟨⟨h2, d2⟩, items ++ [x], by simp [step, hc, ho],
             by show (if CutOk max s.h s.d x il fl then _ else _); rw [if_pos hc]; exact ⟨Or.inr rfl, fun _ _ => rfl⟩, hg, hh⟩
     · exact ⟨s, items, by simp [step, hc], by simp [SpecStep, hc], hi⟩
+  | crash il fl =>
+    by_cases hc : INDEX_ENTRY_SIZE ≤ il
+    · obtain ⟨h2, d2, n, ho, hh, hn, hg, hs⟩ := crash_any_cut hi.1 hi.2 il fl hc
+      exact ⟨⟨h2, d2⟩, items.take n, by simp [step, hc, ho],
+        by show (if INDEX_ENTRY_SIZE ≤ il then _ else _); rw [if_pos hc]; exact ⟨n, hn, rfl, hs⟩,
+        hg, hh⟩
+    · exact ⟨s, items, by simp [step, hc], by simp [SpecStep, hc], hi⟩
 
 /-- the specification lifted to op sequences -/
 inductive SpecRun (max : Nat) : Sys → List Bytes → List Op → Sys → List Bytes → Prop
@@ -163,8 +198,8 @@ inductive SpecRun (max : Nat) : Sys → List Bytes → List Op → Sys → List 
       step max s op = some s' → SpecStep max s items op items' →
       SpecRun max s' items' ops s'' items'' → SpecRun max s items (op :: ops) s'' items''
 
-/-- **Every history**: from any consistent state, any sequence of appends, truncations, re-opens and
-    crash-cut appends runs without a failed open, follows the list specification, and ends in a
+/-- **Every history**: from any consistent state, any sequence of appends, truncations, re-opens,
+    crash-cut appends and arbitrary crash cuts runs without a failed open, follows the list specification, and ends in a
     consistent state (so `retrieve_stored` / `retrieve_absent` apply to it). -/
 theorem history_inv (max : Nat) : ∀ (ops : List Op) (s : Sys) (items : List Bytes), Inv s items →
     ∃ s' items', run max s ops = some s' ∧ SpecRun max s items ops s' items' ∧ Inv s' items'
@@ -218,6 +253,12 @@ theorem open_fixed_keeps_items :
 theorem open_unfixed_loses_items :
     ((openWith false demoCrashDisk).map fun r => (r.1.number, retrieve r.1 r.2 1)) =
       some (1, .none) := by decide
+
+/-- a batch crash: after the four appends the index keeps 4 entries + 7 bytes and the head file
+    (file 1) is gone — items 1..3 (file 0, intact) survive and are kept -/
+example : let s := (run 50 demoSys demoOps).getD demoSys
+    ((step 50 s (.crash (12 * 4 + 7) none)).map fun s' => (s'.h.number, retrieve s'.h s'.d 3)) =
+      some (4, .some (List.replicate 15 3)) := by decide
 
 /-- the translated constants are the ones the index layout needs: a 4-byte file id and an 8-byte
     offset make a 12-byte entry -/
